@@ -9,6 +9,7 @@ regenerated from a template, and the two ASTs (alpha-renamed, raise-arguments an
 stripped) must be identical; anything else becomes `Custom`, which is never well formed.
 """
 import ast
+import builtins
 import inspect
 import textwrap
 
@@ -19,7 +20,7 @@ GUARDS = {"RenderEngine": "tag_engine"}
 # property objects that are not group-level settings nor the member list
 IGNORE = {("BolometerCamera", "slits"): "list of slits collected from the foils; not a member / broadcast attribute"}
 
-_KEEP = {"self", "isinstance", "len", "zip", "all", "list", "tuple", "ndarray", "ValueError", "TypeError",
+_KEEP = {"Primitive", "self", "isinstance", "len", "zip", "all", "list", "tuple", "ndarray", "ValueError", "TypeError",
          "BolometerFoil", "BolometerIRVB"} | set(GUARDS)
 
 T_BROADCAST = """
@@ -128,7 +129,7 @@ class _Norm(ast.NodeTransformer):
         self.map = {}
 
     def _n(self, name):
-        if name in _KEEP:
+        if name in _KEEP or hasattr(builtins, name):     # classes, exceptions, builtins keep their names
             return name
         if name not in self.map:
             self.map[name] = "x%d" % len(self.map)
@@ -308,3 +309,142 @@ def to_coq(table):
                          coq_string(r["zip"]), coq_string(r["bcast"]), r["shape"]))
         parts.append("  (%s, [\n    %s])" % (coq_string(cname), ";\n    ".join(ds)))
     return "Definition extracted : extracted_table := [\n" + ";\n".join(parts) + "].\n"
+
+
+# method bodies of the unchanged tree (frozen copies; generated once from /repo at c11e2e2 with inspect.getsource,
+# docstrings removed).  A method of a group class must match one of them exactly (modulo local names, messages).
+METHOD_TEMPLATES = [
+    ('MInit0D', '''
+def f(self, parent=None, transform=None, name=None, observers=None):
+    super().__init__(parent=parent, transform=transform, name=name)
+    self._observers = tuple()
+    if observers is not None:
+        for observer in observers:
+            self.add_observer(observer)
+'''),
+    ('MInitSpectroscopic', '''
+def f(self, parent=None, transform=None, name=None, observers=None):
+    super().__init__(parent=parent, transform=transform, name=name, observers=observers)
+'''),
+    ('MInitBolometer', '''
+def f(self, camera_geometry=None, parent=None, transform=None, name=''):
+    super().__init__(parent=parent, transform=transform, name=name)
+    self._foil_detectors = []
+    self._slits = []
+    if camera_geometry is not None:
+        if not isinstance(camera_geometry, Primitive):
+            raise TypeError('camera_geometry must be a primitive')
+        camera_geometry.parent = self
+    self._camera_geometry = camera_geometry
+'''),
+    ('MGetitem0D', '''
+def f(self, item):
+    try:
+        selected = self._observers[item]
+    except IndexError:
+        raise IndexError('observer number {} not available in this {} with only {} observers.'.format(item, self.__class__.__name__, len(self._observers)))
+    except TypeError:
+        if isinstance(item, str):
+            observers = [observer for observer in self._observers if observer.name == item]
+            if len(observers) == 1:
+                return observers[0]
+            if len(observers) == 0:
+                raise ValueError("observer '{}' was not found in this {}.".format(item, self.__class__.__name__))
+            raise ValueError('Found {} observers with name {} in this {}.'.format(len(observers), item, self.__class__.__name__))
+        else:
+            raise TypeError('{} key must be of type int, slice or str.'.format(self.__class__.__name__))
+    return selected
+'''),
+    ('MGetitemBolometer', '''
+def f(self, item):
+    if isinstance(item, (int, slice)):
+        try:
+            return self._foil_detectors[item]
+        except IndexError:
+            raise IndexError('Bolometer number {} not available in this BolometerCamera.'.format(item))
+    elif isinstance(item, str):
+        for detector in self._foil_detectors:
+            if detector.name == item:
+                return detector
+        raise ValueError("Bolometer '{}' was not found in this BolometerCamera.".format(item))
+    else:
+        raise TypeError('BolometerCamera key must be of type int, slice or str.')
+'''),
+    ('MLen0D', '''
+def f(self):
+    return len(self._observers)
+'''),
+    ('MLenBolometer', '''
+def f(self):
+    return len(self._foil_detectors)
+'''),
+    ('MIterBolometer', '''
+def f(self):
+    for detector in self._foil_detectors:
+        yield detector
+'''),
+    ('MAdd0D', '''
+def f(self, observer):
+    if not isinstance(observer, self._OBSERVER_TYPE):
+        raise ValueError('Can only add {} objects'.format(self._OBSERVER_TYPE))
+    observer.parent = self
+    self._observers = self._observers + (observer,)
+'''),
+    ('MAddAlias', '''
+def f(self, sight_line):
+    self.add_observer(sight_line)
+'''),
+    ('MAddBolometer', '''
+def f(self, foil_detector):
+    if not isinstance(foil_detector, (BolometerFoil, BolometerIRVB)):
+        raise TypeError('The foil_detector argument must be of type BolometerFoil or BolometerIRVB.')
+    if not foil_detector.slit in self._slits:
+        self._slits.append(foil_detector.slit)
+    foil_detector.parent = self
+    self._foil_detectors.append(foil_detector)
+'''),
+    ('MObserve0D', '''
+def f(self):
+    for observer in self._observers:
+        observer.observe()
+'''),
+    ('MObserveBolometer', '''
+def f(self):
+    observations = []
+    for foil_detector in self._foil_detectors:
+        foil_detector.observe()
+        observations.append(foil_detector.pipelines[0].value.mean)
+    return observations
+'''),
+]
+
+METHODS = ["__init__", "__getitem__", "__len__", "__iter__", "add_observer", "add_sight_line", "add_foil_detector", "observe"]
+
+
+def extract_methods(classes):
+    """[(class name, [(method name, shape)])]: for each member-related method the class resolves to (through
+    its MRO), the template its body is identical to, 'MAbsent' when the class has no such Python method,
+    'MCustom' when the body matches no template (fail closed)."""
+    dumps = [(name, _norm_dump(_fn(src))) for name, src in METHOD_TEMPLATES]
+    out = []
+    for cname, cls in classes:
+        rows = []
+        for m in METHODS:
+            try:
+                f = inspect.getattr_static(cls, m)
+            except AttributeError:
+                f = None
+            if not inspect.isfunction(f):
+                rows.append((m, "MAbsent"))
+                continue
+            nd = _norm_dump(_source_fn(f))
+            shape = [name for name, d in dumps if d == nd]
+            rows.append((m, shape[0] if shape else "MCustom"))
+        out.append((cname, rows))
+    return out
+
+
+def methods_to_coq(table):
+    return "Definition extracted_methods : list (string * list (string * mshape)) := [\n" + ";\n".join(
+        "  (%s, [%s])" % (coq_string(c), "; ".join("(%s, %s)" % (coq_string(m), sh) for m, sh in rows))
+        for c, rows in table) + "].\n"
